@@ -387,17 +387,35 @@ def run(tier):
         (cbb, ct), (ebb, et) = fallible["writer::write_code_hex"][0], fallible["writer::write_eeprom_hex"][0]
         cp_, ep_ = ch.root(ct["args"][0], through_calls=False)[0], ch.root(et["args"][0], through_calls=False)[0]
         compared = False
+        by_place = False
         for gbb, gt, n, tg in P.call_sites(key):
             full, rp = MU.callee_names(gt)
             if re.search(r"PartialEq(<.*>)?>?::(eq|ne)$", rp) or re.search(r"PartialEq(<.*>)?>::(eq|ne)$", full):
-                roots = {ch.root(a, through_calls=False)[0] for a in gt["args"][:2]}
+                # each side of the comparison is one of the two paths, as it is or worked on by a helper
+                sides = []
+                helpers = set()
+                for a in gt["args"][:2]:
+                    locs, consts, calls, places = MU.backward_slice(b, [a])
+                    sides.append({cp_, ep_} & set(locs))
+                    for c in calls:
+                        for cand in MU.callee_names(c):
+                            helpers |= {k2 for k2 in P.body if k2.startswith(key + "::{closure") and (cand == k2 or k2.endswith("::" + cand) or cand.endswith(k2))}
+                        if MU.callee_names(c)[1].endswith("Path::canonicalize") or MU.callee_names(c)[1].endswith("fs::canonicalize"):
+                            by_place = True
                 # the comparison stands in front of both writers (it may itself be skipped when there is no EEPROM image to write)
                 after = G.reach_blocks(b, gbb)
-                if roots == {cp_, ep_} and cbb in after and ebb in after and gbb not in G.reach_blocks(b, cbb) and gbb not in G.reach_blocks(b, ebb):
+                if sorted(map(sorted, sides)) == sorted([[cp_], [ep_]]) and cbb in after and ebb in after and gbb not in G.reach_blocks(b, cbb) and gbb not in G.reach_blocks(b, ebb):
                     compared = True
+                    for h in helpers:
+                        if any(MU.callee_names(t2)[1].endswith(("Path::canonicalize", "fs::canonicalize")) for _, t2, _, _ in P.call_sites(h)):
+                            by_place = True
         rep.ob("C18.paths|distinct", compared,
                "the flash and the EEPROM path are compared before either file is written" if compared else
                "nothing compares the two output paths: `-o f -e f` writes the flash image to f and then replaces it by the EEPROM image, with exit status 0")
+        if compared:
+            rep.ob("C18.paths|distinct|by-place", by_place,
+                   "the two paths are compared by the place they lead to (directory as the system names it), not by their spelling" if by_place else
+                   "the two output paths are compared as they are written: `-o y.hex -e ./y.hex` names one file twice and passes - the flash image is written and then replaced by the EEPROM image, exit status 0")
     rep.floor("blocks in main", len(b["blocks"]), 100)
     return rep
 
